@@ -54,7 +54,10 @@ def _cleanup():
 def _maybe_flush(f):
     try:
         f.flush()
-    except (AttributeError, EnvironmentError, NotImplementedError):
+    except (AttributeError, EnvironmentError, NotImplementedError,
+            ValueError):
+        # ValueError: the stream was closed by the target; a child that
+        # returned normally must still report its own exit code.
         pass
 
 
